@@ -17,6 +17,7 @@ func (g *Gen) resetVC() {
 	g.tags = map[string]int{}
 	g.seenCall = map[*Clause]bool{}
 	g.siteOrds = map[*Clause]map[ssa.Instruction]int{}
+	g.coveredSite = map[ssa.Instruction]bool{}
 	g.dry = 0
 	g.ws = nil
 }
